@@ -166,7 +166,8 @@ func newStoreEnv(prop string, abs, idle time.Duration, faults []cmdFault) (*stor
 	m.SetTime(time.Now())
 	e.mem = oidc.NewMemoryStore(&oidc.Clock{}, abs, idle)
 	for i := 0; i < 2; i++ {
-		c := redis.NewClient(&redis.Options{Addr: m.Addr(), DisableIndentity: true, Protocol: 2, MaxRetries: -1})
+		c := redis.NewClient(&redis.Options{Addr: m.Addr(), DisableIndentity: true, Protocol: 2, MaxRetries: -1,
+			DialTimeout: 10 * time.Minute, ReadTimeout: 10 * time.Minute, WriteTimeout: 10 * time.Minute, PoolTimeout: 10 * time.Minute}) // (go-redis deadlines are real time)
 		e.clients = append(e.clients, c)
 		st, err := oidc.NewRedisStore(&oidc.Clock{}, &faultyCmd{Cmdable: c, env: e}, abs, idle)
 		if err != nil {
